@@ -102,12 +102,28 @@ def Thread.run (th : Thread) (t : Time) : Nat → Option Thread × List Event ×
         (some { th with co := .yield subs k, nextSeq := th.nextSeq + subs.length, slots := ids.map fun i => (i, none) },
          disp.map (fun (i, s) => Event.dispatch i s), disp, none)
 
-/-- a thread whose slots are all filled is resumed: its continuation gets the tick and the completions -/
+/-- awaiting the children in order (`for _, p := range awaiting { if _, err := gocoro.Await(c, p); err != nil { return nil, err } }`):
+    the first slot that is unfilled or failed is a failed one — every child before it has completed without error -/
+def firstFailed (slots : List (Nat × Option Cpl)) : Bool :=
+  match slots.find? (fun s => match s.2 with | some .err => true | none => true | _ => false) with
+  | some (_, some .err) => true
+  | _ => false
+
+/-- a thread whose slots are all filled is resumed: its continuation gets the tick and the completions.
+    A request coroutine awaits its children in order and returns on the first error (searchPromises.go is the only
+    request coroutine with several children); it is resumed as soon as `firstFailed` holds, the children that have not
+    completed yet counting as failed — their completions arrive later and are dropped.  The background coroutines log
+    the error and keep awaiting (timeoutPromises.go, enqueueTasks.go, schedulePromises.go), so they wait for every slot.
+    Which of the two a coroutine file does is pinned from the source by `Gen.awaitLoops` (Proofs/SitesPin.lean). -/
 def Thread.resume? (th : Thread) (t : Time) : Option Thread :=
   if th.slots.isEmpty then none
   else if th.slots.all (fun s => s.2.isSome) then
     match th.co with
     | .yield _ k => some { th with co := k t (th.slots.filterMap (·.2)), slots := [] }
+    | _ => none
+  else if th.isBg.isNone && firstFailed th.slots then
+    match th.co with
+    | .yield _ k => some { th with co := k t (th.slots.map fun s => s.2.getD .err), slots := [] }
     | _ => none
   else none
 
